@@ -936,6 +936,7 @@ impl<T: RecognizerReadable> RecognizerReadable for Option<T> {
 
 pub struct EmptyBodyRecognizer<T> {
     seen_start: bool,
+    seen_extant: bool,
     _type: PhantomData<fn() -> Option<T>>,
 }
 
@@ -943,6 +944,7 @@ impl<T> Default for EmptyBodyRecognizer<T> {
     fn default() -> Self {
         EmptyBodyRecognizer {
             seen_start: false,
+            seen_extant: false,
             _type: PhantomData,
         }
     }
@@ -953,10 +955,15 @@ impl<T> Recognizer for EmptyBodyRecognizer<T> {
 
     fn feed_event(&mut self, input: ReadEvent<'_>) -> Option<Result<Self::Target, ReadError>> {
         if self.seen_start {
-            if matches!(input, ReadEvent::EndRecord) {
-                Some(Ok(None))
-            } else {
-                Some(Err(input.kind_error(ExpectedEvent::EndOfRecord)))
+            match input {
+                ReadEvent::EndRecord => Some(Ok(None)),
+                // An absent value that is written out explicitly (as the model and MessagePack writers do) is
+                // a body holding a single empty item.
+                ReadEvent::Extant if !self.seen_extant => {
+                    self.seen_extant = true;
+                    None
+                }
+                ow => Some(Err(ow.kind_error(ExpectedEvent::EndOfRecord))),
             }
         } else if matches!(input, ReadEvent::StartBody) {
             self.seen_start = true;
@@ -968,6 +975,7 @@ impl<T> Recognizer for EmptyBodyRecognizer<T> {
 
     fn reset(&mut self) {
         self.seen_start = false;
+        self.seen_extant = false;
     }
 }
 
